@@ -6,23 +6,26 @@
 cd "$(dirname "$0")/.." || exit 2
 export GOFLAGS=-mod=mod GOPROXY=off GOSUMDB=off GOTOOLCHAIN=local
 REPO=${VERIF_REPO:-/repo}
-mkdir -p .cache/bin .cache/inst
-exec 9> .cache/inst/lock
+CACHE=${VERIF_CACHE:-$(pwd)/.cache}
+mkdir -p "$CACHE/bin" "$CACHE/inst"
+exec 9> "$CACHE/inst/lock"
 flock 9
 h=$( (cd "$REPO" && { git ls-files -co --exclude-standard 2>/dev/null || find . -type f; } | grep -E '\.(go|y|in|yang|mod|sum)$' | LC_ALL=C sort | xargs -d '\n' sha1sum 2>/dev/null; cd - >/dev/null; sha1sum cmd/verif-instrument/main.go rt/zzverifrt.go) | sha1sum | cut -d' ' -f1)
-if [ "$(cat .cache/inst/HASH 2>/dev/null)" != "$h" ] || [ ! -d .cache/inst/src ]; then
-  rm -rf .cache/inst/src .cache/inst/HASH
-  mkdir -p .cache/inst/src
-  rsync -a --exclude .git "$REPO"/ .cache/inst/src/ || exit 2
-  mkdir -p .cache/inst/src/zzverifrt && cp rt/zzverifrt.go .cache/inst/src/zzverifrt/ || exit 2
-  go build -o .cache/bin/verif-instrument ./cmd/verif-instrument || { echo "harness: cannot build instrumenter" >&2; exit 2; }
-  .cache/bin/verif-instrument "$(pwd)/.cache/inst/src" meta parser node nodeutil val source xpath fc > .cache/inst/instrument.log 2>&1 || { cat .cache/inst/instrument.log >&2; echo "harness: instrumentation failed" >&2; exit 2; }
-  echo "$h" > .cache/inst/HASH
+if [ "$(cat "$CACHE/inst/HASH" 2>/dev/null)" != "$h" ] || [ ! -d "$CACHE/inst/src" ]; then
+  rm -rf "$CACHE/inst/src" "$CACHE/inst/HASH"
+  mkdir -p "$CACHE/inst/src"
+  rsync -a --exclude .git "$REPO"/ "$CACHE/inst/src/" || exit 2
+  mkdir -p "$CACHE/inst/src/zzverifrt" && cp rt/zzverifrt.go "$CACHE/inst/src/zzverifrt/" || exit 2
+  go build -o "$CACHE/bin/verif-instrument" ./cmd/verif-instrument || { echo "harness: cannot build instrumenter" >&2; exit 2; }
+  "$CACHE/bin/verif-instrument" "$CACHE/inst/src" meta parser node nodeutil val source xpath fc > "$CACHE/inst/instrument.log" 2>&1 || { cat "$CACHE/inst/instrument.log" >&2; echo "harness: instrumentation failed" >&2; exit 2; }
+  echo "$h" > "$CACHE/inst/HASH"
 fi
-cp -f go.sum go.inst.sum 2>/dev/null
+# the module file of the instrumented build names the scratch copy by absolute path
+sed "s#=> ./.cache/inst/src#=> $CACHE/inst/src#" go.inst.mod > "$CACHE/go.inst.mod"
+cp -f go.sum "$CACHE/go.inst.sum" 2>/dev/null
 if [ "$1" = "race" ]; then
-  go build -race -modfile=go.inst.mod -tags verif -o .cache/bin/verif-inst-race ./cmd/verif 2> .cache/build-inst.err || { cat .cache/build-inst.err >&2; echo "harness: instrumented -race build failed" >&2; exit 2; }
+  go build -race -modfile="$CACHE/go.inst.mod" -tags verif -o "$CACHE/bin/verif-inst-race" ./cmd/verif 2> "$CACHE/build-inst.err" || { cat "$CACHE/build-inst.err" >&2; echo "harness: instrumented -race build failed" >&2; exit 2; }
 else
-  go build -modfile=go.inst.mod -tags verif -o .cache/bin/verif-inst ./cmd/verif 2> .cache/build-inst.err || { cat .cache/build-inst.err >&2; echo "harness: instrumented build failed" >&2; exit 2; }
+  go build -modfile="$CACHE/go.inst.mod" -tags verif -o "$CACHE/bin/verif-inst" ./cmd/verif 2> "$CACHE/build-inst.err" || { cat "$CACHE/build-inst.err" >&2; echo "harness: instrumented build failed" >&2; exit 2; }
 fi
 exit 0
